@@ -37,11 +37,20 @@ let run_k t =
      | Some v -> hex0 (ctor_line (parse_kind kind) (unhex0 prefix) (unhex0 key) v))
   | _ -> failwith "bad K case"
 
+(* Display of a MetricValue: its value texts joined by ':' *)
+let run_v t =
+  match t with
+  | [_; arg] -> (match parse_arg arg with
+                 | AUser v -> "ok:" ^ hex0 (join b_colon (value_texts v))
+                 | _ -> failwith "V needs a user: argument")
+  | _ -> failwith "bad V case"
+
 let run_case line =
   let t = tokens line in
   match t with
   | "X" :: _ | "Y" :: _ -> run_x t
   | "K" :: _ -> run_k t
+  | "V" :: _ -> run_v t
   | _ -> failwith ("bad wire case: " ^ line)
 
 (* the same X case as a Gallina equation (kernel cross-check of the extracted client model) *)
